@@ -257,6 +257,14 @@ impl FieldType for Z16 {
 
 impl FieldType for String {
     fn make(seed: u64) -> Self {
+        if mix(seed) % 61 == 0 {
+            // longer than 65535 bytes
+            let mut s = String::with_capacity(70_016);
+            while s.len() < 70_000 {
+                s.push_str(&format!("{:x}", mix(seed ^ s.len() as u64)));
+            }
+            return s;
+        }
         format!("s{:x}", mix(seed))
     }
     fn digest(&self) -> u64 {
@@ -270,14 +278,15 @@ impl FieldType for String {
         Self::make(seed).digest()
     }
     fn mutate(&mut self, seed: u64) {
+        let v = <String as FieldType>::make(seed);
         self.clear();
-        self.push_str(&format!("s{:x}", mix(seed)));
+        self.push_str(&v);
     }
 }
 
 impl FieldType for Vec<u32> {
     fn make(seed: u64) -> Self {
-        let n = (mix(seed) % 5) as usize;
+        let n = if mix(seed) % 61 == 1 { 66_000 } else { (mix(seed) % 5) as usize };
         (0..n).map(|i| mix(seed + i as u64) as u32).collect()
     }
     fn digest(&self) -> u64 {
@@ -291,7 +300,7 @@ impl FieldType for Vec<u32> {
         Self::make(seed).digest()
     }
     fn mutate(&mut self, seed: u64) {
-        let n = (mix(seed) % 5) as usize;
+        let n = if mix(seed) % 61 == 1 { 66_000 } else { (mix(seed) % 5) as usize };
         self.clear();
         self.extend((0..n).map(|i| mix(seed + i as u64) as u32));
     }
@@ -488,6 +497,116 @@ impl FieldType for [u64; 12] {
     }
 }
 
+token!(HugeTok, u32, u32, #[repr(C, align(8))] { pad: [u64; 160] = [0x4855474548554745; 160] });
+
+impl FieldType for f64 {
+    fn make(seed: u64) -> Self {
+        match mix(seed) % 9 {
+            0 => f64::NAN,
+            1 => f64::INFINITY,
+            2 => f64::NEG_INFINITY,
+            3 => -0.0,
+            // exactly representable, at most 13 significant decimal digits: survives serde_json's
+            // (not correctly rounded by default) float parser
+            _ => ((mix(seed ^ 0xF10A7) % (1 << 30)) as f64) / 8.0 - 1000.0,
+        }
+    }
+    fn digest(&self) -> u64 {
+        // all NaNs are one value for the purpose of the comparison
+        if self.is_nan() {
+            0x7ff8_0000_0000_0001
+        } else {
+            self.to_bits()
+        }
+    }
+    fn expect(seed: u64) -> u64 {
+        Self::make(seed).digest()
+    }
+    fn mutate(&mut self, seed: u64) {
+        *self = Self::make(seed);
+    }
+    fn json_safe(&self) -> bool {
+        self.is_finite()
+    }
+}
+
+fn fp0(x: u32) -> u32 {
+    x.wrapping_add(1)
+}
+fn fp1(x: u32) -> u32 {
+    x.wrapping_mul(3)
+}
+fn fp2(x: u32) -> u32 {
+    x ^ 0xA5A5
+}
+fn fp3(x: u32) -> u32 {
+    x.rotate_left(5)
+}
+const FPS: [fn(u32) -> u32; 4] = [fp0, fp1, fp2, fp3];
+
+impl FieldType for fn(u32) -> u32 {
+    fn make(seed: u64) -> Self {
+        FPS[(mix(seed) % 4) as usize]
+    }
+    fn digest(&self) -> u64 {
+        self(0x1234_5678) as u64
+    }
+    fn expect(seed: u64) -> u64 {
+        FPS[(mix(seed) % 4) as usize](0x1234_5678) as u64
+    }
+    fn mutate(&mut self, seed: u64) {
+        *self = Self::make(seed);
+    }
+}
+
+impl FieldType for *const u8 {
+    fn make(seed: u64) -> Self {
+        std::ptr::without_provenance((mix(seed) as usize) | 1)
+    }
+    fn digest(&self) -> u64 {
+        self.addr() as u64
+    }
+    fn expect(seed: u64) -> u64 {
+        ((mix(seed) as usize) | 1) as u64
+    }
+    fn mutate(&mut self, seed: u64) {
+        *self = Self::make(seed);
+    }
+}
+
+impl FieldType for Box<dyn Fn(u32) -> u32 + Send + Sync> {
+    fn make(seed: u64) -> Self {
+        let k = mix(seed) as u32;
+        Box::new(move |x| x.wrapping_add(k))
+    }
+    fn digest(&self) -> u64 {
+        self(0) as u64
+    }
+    fn expect(seed: u64) -> u64 {
+        (mix(seed) as u32) as u64
+    }
+    fn mutate(&mut self, seed: u64) {
+        *self = Self::make(seed);
+    }
+}
+
+use crate::string;
+
+impl FieldType for string::String<8> {
+    fn make(seed: u64) -> Self {
+        string::String(mix(seed).to_le_bytes())
+    }
+    fn digest(&self) -> u64 {
+        u64::from_le_bytes(self.0)
+    }
+    fn expect(seed: u64) -> u64 {
+        mix(seed)
+    }
+    fn mutate(&mut self, seed: u64) {
+        *self = Self::make(seed);
+    }
+}
+
 /// 3 bytes, alignment 1.
 #[derive(Debug)]
 #[repr(C)]
@@ -647,7 +766,7 @@ mod tests {
         law::<()>(); law::<[u8; 3]>(); law::<[u16; 3]>(); law::<[u32; 3]>(); law::<[u64; 3]>(); law::<[u64; 0]>(); law::<[u8; 5]>();
         law::<(u8, u32)>(); law::<A16>(); law::<A32>(); law::<Z16>(); law::<String>(); law::<Vec<u32>>(); law::<Box<str>>();
         law::<Option<String>>(); law::<[String; 2]>(); law::<Tok8>(); law::<Tok4>(); law::<Tok12>(); law::<Tok16>();
-        law::<TokBox>(); law::<Tok3>(); law::<TokZ>(); law::<BigTok>(); law::<Vec<Tok8>>(); law::<[u64; 12]>(); law::<A64>(); law::<Wide320>();
+        law::<TokBox>(); law::<Tok3>(); law::<TokZ>(); law::<BigTok>(); law::<Vec<Tok8>>(); law::<[u64; 12]>(); law::<A64>(); law::<Wide320>(); law::<HugeTok>(); law::<f64>(); law::<fn(u32) -> u32>(); law::<*const u8>(); law::<Box<dyn Fn(u32) -> u32 + Send + Sync>>(); law::<string::String<8>>();
         assert!(crate::ledger_live().is_empty());
         assert_eq!(crate::zst_live(), 0);
         assert!(crate::ledger_take_errors().is_empty());
